@@ -100,6 +100,40 @@ def generate(ctx):
         c.update(_opts(rng, 3))
         c["ignore_h"] = True
         yield c
+    # degenerate hub: the mobile molecule has an atom with >= 3 bonds whose bonded neighbours lie on ONE line,
+    # so the "plane through the first three neighbours" of the single-atom move does not exist (zero cross
+    # product -> non-finite proposal, which the search must reject): the result still has to be finite and
+    # bit-identical under the same seed (seed C06-2: a fallback direction from an unseeded generator)
+    for i in range(ctx.n(12, 150)):
+        nm = rng.randint(4, 7)
+        nh = rng.choice([3, 3, 4])
+        hub = 0
+        c0 = [rng.uniform(-0.5, 0.5) for _ in range(3)]
+        d = [rng.choice([-1.0, 0.0, 1.0]) for _ in range(3)]
+        if not any(d):
+            d = [1.0, 0.0, 0.0]
+        step = rng.choice([0.125, 0.25, 0.5])
+        pos = [[c0[0] + 0.21, c0[1] - 0.17, c0[2] + 0.3]]
+        ks = rng.sample([-3, -2, -1, 0, 1, 2, 3], nh)
+        for kk in ks:
+            pos.append([c0[j] + kk * step * d[j] for j in range(3)])
+        bonds = [[hub, j] for j in range(1, nh + 1)]
+        while len(pos) < nm:
+            a = len(pos)
+            par = rng.randrange(1, a)
+            pos.append([pos[par][j] + rng.uniform(-0.3, 0.3) for j in range(3)])
+            bonds.append([par, a])
+        small = {"res": "HUB", "names": [rng.choice(HEAVY) for _ in range(len(pos))], "pos": pos, "bonds": bonds}
+        big = _mol(rng, rng.randint(len(pos) + 1, 14), "BIG", 1.0, 0.2)
+        if all(n in HNAMES for n in big["names"]):
+            big["names"][0] = "C1"
+        swap = rng.random() < 0.5
+        c = {"kind": "align", "start": small if swap else big, "end": big if swap else small,
+             "restr": [], "cls": "degenerate-hub:" + ("mobile-start" if swap else "mobile-end")}
+        c.update(_opts(rng, len(pos)))
+        c["deform"] = list(rng.choice([(2,), (0, 2), (1, 2), (0, 1, 2)]))
+        c["steps_factor"] = rng.choice([5, 10, 20])
+        yield c
     for i in range(ctx.n(120, 2000)):
         k = rng.random()
         if k < 0.1:
